@@ -5,6 +5,7 @@ import (
 	"go/ast"
 	"go/constant"
 	"go/token"
+	"os"
 	"go/types"
 	"sort"
 	"strings"
@@ -25,7 +26,7 @@ func init() {
 	register(&Rule{ID: "E-INFNAN", Props: []string{"C05", "C14", "C18"}, Floor: 1,
 		Doc: "every result value of the evaluator that is produced by decimal Add/Sub/Mul/Quo/QuoRem/Pow or by float + - * /, math.Mod or math.Floor of such is returned only under the false edges of IsInf and IsNaN tests on that value (whose true edges return ErrInfinity / ErrNotANumber)",
 		Run: ruleEInfNaN})
-	register(&Rule{ID: "E-ROUNDING-AGREE", Props: []string{"C14"}, Floor: 1,
+	register(&Rule{ID: "E-ROUNDING-AGREE", Props: []string{"C14", "C05", "C02"}, Floor: 1,
 		Doc: "in every operator with a float fast path next to a decimal path, the rounding primitives of the two paths belong to the same class (math.Floor/decimal128.Floor = floor; math.Trunc/math.Mod/QuoRem/decimal128.Trunc = truncate; Ceil = ceiling)",
 		Run: ruleERoundingAgree})
 	register(&Rule{ID: "E-OPCHAIN", Props: []string{"C05", "C10", "C01"}, Floor: 3,
@@ -759,9 +760,15 @@ func ruleEOpChain(p *Program, r *Reporter) {
 		}
 		bad := false
 		for _, g := range sortedKeysPos(got) {
+			if os.Getenv("JMESCHECK_DEBUG_OPCHAIN") != "" {
+				fmt.Fprintf(os.Stderr, "opchain %s: %q\n", n, g)
+			}
 			numeric := strings.HasPrefix(g, "numeric: ") || strings.Contains(g, "dec(") || strings.Contains(g, "fp0(") || strings.Contains(g, "fp1(") || strings.Contains(g, "flt(")
 			g0 := g
 			g = strings.TrimPrefix(g, "numeric: ")
+			// an operand asserted to be a decimal is its decimal value
+			g = strings.ReplaceAll(g, "asserted:decimal128.Decimal(", "dec(")
+			numeric = numeric || strings.Contains(g, "dec(")
 			got[g] = got[g0]
 			if numeric && !want[g] {
 				r.Bad(got[g], key+" :: "+g, fn.Name()+" returns this on numeric operands; the operator is specified as "+strings.Join(opResults[n], " or "))
